@@ -495,6 +495,7 @@ func c04Disturb(w *core.W, i int) {
 }
 
 func runC04(w *core.W) {
+	runStability(w, c04Stable)
 	r := w.RNG("pairs")
 	sample := func(kind string, e *AExpr, i int) {
 		if i%2003 == 0 {
